@@ -1,10 +1,10 @@
 /- Native model driver for engine `heights` (C15). One op per line on stdin, one canonical observation per line on stdout.
    `reset full=<0|1> q=<quorum>` starts a new self-contained case.
-   `reset … fix=1` selects the model of the code WITH the candidate repairs of notes/C15.md (Ssv/Model/HeightsRepaired.lean);
-   bin/check never uses it: it is for comparing a patched tree against the repaired model by hand. -/
+   `reset … old=1` selects the semantics BEFORE the fixes 358626700 / 26e2e6b00 (Ssv/Model/HeightsOld.lean);
+   bin/check never uses it: it is for old-vs-new runs against a scratch worktree of the old tree. -/
 import Ssv.Common.Wire
 import Ssv.Model.Heights
-import Ssv.Model.HeightsRepaired
+import Ssv.Model.HeightsOld
 open Ssv Ssv.Heights Ssv.Wire
 
 def b01 (b : Bool) : String := if b then "1" else "0"
@@ -32,7 +32,7 @@ def showOpt {α} (f : α → String) : Option α → String
 def showState (s : State) : String :=
   let insts := String.intercalate "," (s.c.insts.map showInst)
   let hist := String.intercalate "," (s.s.hist.map fun e => s!"{e.1}={showStored e.2}")
-  s!"H={s.c.height} I={insts} R={showOpt toString s.r.duty}/{showOpt toString s.r.running}/{b01 (s.r.running.isSome && s.r.runDecided)}/{s.r.hds} S={showOpt showStored s.s.highest} X={hist}"
+  s!"H={s.c.height} I={insts} R={showOpt toString s.r.duty}/{showOpt toString s.r.running}/{b01 (s.r.running.isSome && s.r.runDecided)}/{b01 (s.r.duty.isSome && s.r.hasValue)}/{s.r.hds} S={showOpt showStored s.s.highest} X={hist}"
 
 def showOut : Out → String
   | .ok => "ok" | .guard => "guard" | .refused => "refused" | .noduty => "noduty"
@@ -73,13 +73,13 @@ def stepLine (st : Option (State × Bool)) (line : String) : Option (State × Bo
     match kvBool rest "full", kvNat rest "q" with
     | some f, some q =>
       let s := init f q
-      (some (s, (kvBool rest "fix").getD false), "ready " ++ showState s)
+      (some (s, (kvBool rest "old").getD false), "ready " ++ showState s)
     | _, _ => (st, "bad-op")
   | _ =>
     match st, parseOp ws with
-    | some (s, fix), some op =>
-      let (s', o) := if fix then stepR s op else step s op
-      (some (s', fix), showOut o ++ " " ++ showState s')
+    | some (s, old), some op =>
+      let (s', o) := if old then stepOld s op else step s op
+      (some (s', old), showOut o ++ " " ++ showState s')
     | _, _ => (st, "bad-op")
 
 def main : IO Unit := do
